@@ -393,6 +393,19 @@ def _run_path(world, c, params, tag, it, path, rep, first):
             z3.IntSort(), z3.Const(S.fresh_name('d'), c.yields.sort())),
             c.yields, kind='iter'))
     it.fn_stack.append(fnode)
+    # exception classes this function catches somewhere (see Interp.call)
+    handled = set()
+    for n in ast.walk(fnode):
+        if isinstance(n, ast.ExceptHandler) and n.type is not None:
+            for t in (n.type.elts if isinstance(n.type, ast.Tuple)
+                      else [n.type]):
+                nm = ast.unparse(t).split('.')[-1]
+                if nm in ('IndexError', 'KeyError', 'ValueError', 'TypeError',
+                          'AttributeError', 'LookupError', 'StopIteration',
+                          'ArithmeticError', 'ZeroDivisionError', 'Exception',
+                          'RuntimeError', 'OverflowError'):
+                    handled.add(nm)
+    it.callback_exc = handled
     outcome, value = 'return', None
     try:
         try:
@@ -453,6 +466,10 @@ def _run_path(world, c, params, tag, it, path, rep, first):
                                                            sfx),
                             'post', fnode.lineno, assume_after=False)
             ob.text = e
+    elif getattr(value, 'from_callback', False):
+        # an operand's own exception reaching the caller untouched is what
+        # every function may do (no obligation)
+        return
     else:
         exc = value
         allowed = None
